@@ -2199,22 +2199,52 @@ class VM:
                     is_global = "g" in pattern._flags
                     capture_count = regex_internal._capture_count
 
-                    # Handle special replacement patterns
+                    # Expand the replacement template for one match: a single
+                    # left-to-right scan, so replaced text is never expanded again
                     def handle_replacement(match_result):
-                        result = replacement
-                        # Handle $$ escape first (must be done before other $ patterns)
-                        result = result.replace("$$", "\x00DOLLAR\x00")
-                        # $& - the matched substring
-                        result = result.replace("$&", match_result[0] or "")
-                        # $n - nth captured group
-                        for i in range(1, 10):
-                            if i <= capture_count:
-                                result = result.replace(f"${i}", match_result[i] or "")
+                        matched = match_result[0] or ""
+                        start = match_result.index
+                        groups = capture_count - 1
+                        digits = "0123456789"
+                        out = []
+                        i = 0
+                        while i < len(replacement):
+                            ch = replacement[i]
+                            nxt = replacement[i + 1 : i + 2]
+                            if ch != "$" or nxt == "":
+                                out.append(ch)
+                                i += 1
+                            elif nxt == "$":
+                                out.append("$")
+                                i += 2
+                            elif nxt == "&":
+                                out.append(matched)
+                                i += 2
+                            elif nxt == "`":
+                                out.append(s[:start])
+                                i += 2
+                            elif nxt == "'":
+                                out.append(s[start + len(matched) :])
+                                i += 2
+                            elif nxt in digits:
+                                # $nn when nn names a group, else $n, else literal text
+                                ref = replacement[i + 1 : i + 3]
+                                if not (
+                                    len(ref) == 2
+                                    and ref[1] in digits
+                                    and 1 <= int(ref) <= groups
+                                ):
+                                    ref = nxt
+                                if 1 <= int(ref) <= groups:
+                                    out.append(match_result[int(ref)] or "")
+                                    i += 1 + len(ref)
+                                else:
+                                    out.append("$")
+                                    i += 1
                             else:
-                                result = result.replace(f"${i}", "")
-                        # Restore escaped dollars
-                        result = result.replace("\x00DOLLAR\x00", "$")
-                        return result
+                                out.append("$")
+                                i += 1
+                        return "".join(out)
 
                     def call_replacer(match_result):
                         # replacer(match, capture 1, ..., offset, subject)
